@@ -18,9 +18,9 @@ ASSUMPTIONS = [
 
 
 def plan(tier, seed):
-    sp = progwork.shards(tier, 1500, 30000, exhaustive=(tier == 'thorough'))
+    sp = progwork.shards(tier, 1500, 100000, exhaustive=(tier == 'thorough'))
     from hv import realwork
-    n = 3 if tier == 'quick' else 20
+    n = 3 if tier == 'quick' else 40
     for y in (2021, 2022, 2023):
         sp.append({'kind': 'cli', 'year': y, 'families': ['F8', 'F0', 'F2', 'F3', 'F1', 'F4'], 'n': n})
         sp.append({'kind': 'cli', 'year': y, 'families': ['F8', 'F10', 'F9', 'F5', 'F8', 'F6'], 'n': n})
